@@ -13,7 +13,8 @@ import random
 
 from harness import opsreplay, par, schemagamma, tlc
 
-OPTS = [dict(indent=4), dict(indent=2, include_descriptions=False), dict(indent="\t", include_custom_schema_directives=True), dict(indent=2)]
+OPTS = [dict(indent=4), dict(indent=2, include_descriptions=False), dict(indent="\t", include_custom_schema_directives=True), dict(indent=2),
+        dict(indent=2, include_introspection=True)]
 HIST_SDL = [
     '''
 directive @tag(n: Int) on FIELD_DEFINITION | OBJECT
@@ -64,6 +65,27 @@ def roundtrip(schema, opts, label, out, wit):
         out.setdefault("sdl/print-raises/%s/%s" % (type(e).__name__, label), ["printing raises", dict(wit, error=repr(e))])
         return None
     w = dict(wit, opts=repr(opts), text=text[:1500])
+    if opts.get("include_introspection"):
+        # Introspection types and specified directives cannot be re-declared, so this text is not meant to be rebuilt: it must
+        # parse, and what remains after dropping the introspection part must be the text printed without the option.
+        from py_gql.lang import parse
+        try:
+            doc = parse(text, allow_type_system=True)
+            plain = parse(schema.to_string(**{k: v for k, v in opts.items() if k != "include_introspection"}), allow_type_system=True)
+        except GraphQLSyntaxError as e:
+            out.setdefault("sdl/printed-text-does-not-parse/%s" % label, ["printed SDL is rejected by the parser", dict(w, error=str(e)[:200])])
+            return text
+
+        def keep(d):
+            n = getattr(getattr(d, "name", None), "value", "")
+            return not n.startswith("__") and not (type(d).__name__ == "DirectiveDefinition" and n in ("skip", "include", "deprecated"))
+        rest = [d for d in doc.definitions if keep(d)]
+        from py_gql.lang import print_ast   # (the AST printer is verified by C03; positions necessarily differ)
+        if [print_ast(d) for d in rest] != [print_ast(d) for d in plain.definitions]:
+            out.setdefault("sdl/introspection-option-changes-user-types/%s" % label, ["the user part of the text differs when introspection types are included", w])
+        if len(rest) == len(doc.definitions):
+            out.setdefault("sdl/introspection-option-ignored/%s" % label, ["include_introspection printed no introspection definition", w])
+        return text
     try:
         rebuilt = build_schema(text)
     except GraphQLSyntaxError as e:
